@@ -236,4 +236,335 @@ example : fsJ [0, 1, 9] = some (.file 77) ∧ fsJ [0, 1, 130] = some (.file 78) 
     fsJC [0, 1, 110] = some (.file 12) ∧ fsJC [0, 1, 111] = some (.file 13) ∧ fsJC [0, 1] = some .dir ∧
     9 ∉ expectedJ ∧ 110 ∈ expectedJ := by decide
 
+/-! ## FINDING (getD) and its repair
+
+`C19_ancillary_failure_clean` concludes with `(removeDirAll fs1 tmp).getD fs1`: if the removal failed the
+temporary directory would silently stay (the Rust code only logs the error, so the `getD` is faithful),
+and no existing theorem shows that it succeeds; `C19_tmp_removed` ASSUMES it (`h`) and that the path is
+a directory (`hq`). Below: directories are never replaced by `tar`, `create_dir_all` or `rename`
+(`DirMono`), hence in the canonical layout the removal always succeeds and the tree is gone. -/
+
+section removal
+variable {ν : Type} [DecidableEq ν]
+set_option linter.unusedSectionVars false
+
+/-- directories are never replaced or removed -/
+def DirMono (fs fs' : FS ν) : Prop := ∀ p, fs p = some .dir → fs' p = some .dir
+
+theorem DirMono.refl (fs : FS ν) : DirMono fs fs := fun _ h => h
+theorem DirMono.trans {a b c : FS ν} (h1 : DirMono a b) (h2 : DirMono b c) : DirMono a c :=
+  fun p h => h2 p (h1 p h)
+
+theorem insert_dirMono (fs : FS ν) (q : List ν) (n : Node ν) (h : fs q = some .dir → n = .dir) :
+    DirMono fs (Restore.Full.insert fs q n) := by
+  intro p hp
+  unfold Restore.Full.insert
+  by_cases hpq : p = q
+  · subst hpq; simp [h hp]
+  · simp [hpq, hp]
+
+theorem resolveAux_missing (fs : FS ν) (ff : Bool) (steps : Nat) (cur : List ν) (cs : List (Comp ν))
+    (par : List ν) (n : ν) (h : resolveAux fs ff steps cur cs = .missing par n) : fs (par ++ [n]) = none := by
+  fun_induction resolveAux fs ff steps cur cs <;> simp_all
+
+theorem mkdir_dirMono (fs fs' : FS ν) (p : LPath ν) (h : mkdir fs p = some fs') : DirMono fs fs' := by
+  unfold mkdir at h
+  split at h
+  · injection h with h; subst h; exact insert_dirMono _ _ _ (fun _ => rfl)
+  · cases h
+
+theorem createDirAll_dirMono (fs : FS ν) (fuel : Nat) (p : LPath ν) (fs' : FS ν)
+    (h : createDirAll fs fuel p = some fs') : DirMono fs fs' := by
+  fun_induction createDirAll fs fuel p generalizing fs' <;> simp_all
+  all_goals first
+    | exact DirMono.refl _
+    | exact mkdir_dirMono _ _ _ ‹_›
+    | exact DirMono.trans ‹DirMono _ _› (mkdir_dirMono _ _ _ ‹_›)
+
+theorem ensureDirs_dirMono (fs : FS ν) (dc : List ν) (dst : LPath ν) (cs : List (Comp ν)) (done : LPath ν)
+    (fs' : FS ν) (h : ensureDirs fs dc dst cs done = some fs') : DirMono fs fs' := by
+  fun_induction ensureDirs fs dc dst cs done generalizing fs' <;> simp_all
+  all_goals first
+    | exact DirMono.refl _
+    | exact DirMono.trans (createDirAll_dirMono _ _ _ _ ‹_›) ‹DirMono _ _›
+
+theorem resolve_missing (fs : FS ν) (ff : Bool) (p : LPath ν) (par : List ν) (n : ν)
+    (h : resolve fs ff p = .missing par n) : fs (par ++ [n]) = none :=
+  resolveAux_missing fs ff _ _ _ par n h
+
+theorem unpackEntry_dirMono (fs : FS ν) (dc : List ν) (dst : LPath ν) (e : Entry ν) :
+    DirMono fs (unpackEntry fs dc dst e).1 := by
+  unfold unpackEntry
+  dsimp only
+  repeat' split
+  all_goals first
+    | exact DirMono.refl _
+    | exact ensureDirs_dirMono _ _ _ _ _ _ ‹_›
+    | exact DirMono.trans (ensureDirs_dirMono _ _ _ _ _ _ ‹_›) (mkdir_dirMono _ _ _ ‹_›)
+    | exact DirMono.trans (ensureDirs_dirMono _ _ _ _ _ _ ‹_›)
+        (insert_dirMono _ _ _ (fun h => by simp [resolve_missing _ _ _ _ _ ‹_›] at h))
+    | exact DirMono.trans (ensureDirs_dirMono _ _ _ _ _ _ ‹_›)
+        (insert_dirMono _ _ _ (fun h => absurd h (by assumption)))
+
+theorem unpackList_dirMono (dc : List ν) (dst : LPath ν) (fs : FS ν) (es : List (Entry ν)) :
+    DirMono fs (unpackList dc dst fs es).1 := by
+  induction es generalizing fs with
+  | nil => exact DirMono.refl _
+  | cons e r ih =>
+    unfold unpackList
+    have me := unpackEntry_dirMono fs dc dst e
+    split
+    · next fs' h => rw [h] at me; exact DirMono.trans me (ih fs')
+    · next fs' h => rw [h] at me; exact me
+
+theorem unpack_dirMono (fs : FS ν) (dst : LPath ν) (a : Archive ν) : DirMono fs (unpack fs dst a).1 := by
+  unfold unpack
+  dsimp only
+  repeat' split
+  all_goals first
+    | exact DirMono.refl _
+    | exact unpackList_dirMono _ _ _ _
+    | exact DirMono.trans (unpackList_dirMono _ _ _ _) (unpackList_dirMono _ _ _ _)
+
+theorem unpackAttempts_dirMono (dst : LPath ν) (a : Archive ν) (k : Nat) (fs : FS ν) :
+    DirMono fs (unpackAttempts dst a k fs).1 := by
+  induction k generalizing fs with
+  | zero => exact DirMono.refl _
+  | succ k ih =>
+    unfold unpackAttempts
+    have mu := unpack_dirMono fs dst a
+    split
+    · exact ih fs
+    · dsimp only
+      split
+      · exact mu
+      · exact DirMono.trans mu (ih _)
+
+theorem unpackFirst_dirMono (dst : LPath ν) (fs : FS ν) (as : List (Archive ν)) :
+    DirMono fs (unpackFirst dst fs as).1 := by
+  induction as generalizing fs with
+  | nil => exact DirMono.refl _
+  | cons a r ih =>
+    unfold unpackFirst
+    have mu := unpackAttempts_dirMono dst a ATTEMPTS fs
+    dsimp only
+    split
+    · exact mu
+    · exact DirMono.trans mu (ih _)
+
+/-- resolution of `db/x` when the root and `db` are directories (the canonical layout of every case) -/
+theorem resolve_two (fs : FS ν) (a b : ν) (h0 : fs [] = some .dir) (ha : fs [a] = some .dir) :
+    resolve fs false [.nm a, .nm b] = (match fs [a, b] with | none => .missing [a] b | some _ => .at [a, b]) := by
+  cases hb : fs [a, b] with
+  | none => simp [resolve, STEPS, resolveAux, h0, ha, hb]
+  | some n => cases n <;> simp [resolve, STEPS, resolveAux, h0, ha, hb]
+
+theorem lstat_some (fs : FS ν) (p : LPath ν) (q : List ν) (n : Node ν) (h : lstat fs p = some (q, n)) :
+    fs q = some n := by
+  unfold lstat at h
+  split at h
+  · next q' _ =>
+    cases hq : fs q' with
+    | none => simp [hq] at h
+    | some m => simp [hq] at h; obtain ⟨rfl, rfl⟩ := h; exact hq
+  · cases h
+
+theorem remove_dirMono (fs : FS ν) (s : List ν) (h : fs s ≠ some .dir) : DirMono fs (Restore.Full.remove fs s) := by
+  intro p hp
+  unfold Restore.Full.remove
+  by_cases hps : p = s
+  · subst hps; exact absurd hp h
+  · simp [hps, hp]
+
+theorem rename_dirMono (fs fs' : FS ν) (src dst : LPath ν) (h : rename fs src dst = some fs') : DirMono fs fs' := by
+  unfold rename at h
+  repeat' split at h
+  all_goals first
+    | (cases h; done)
+    | (injection h with h; subst h; exact DirMono.refl _)
+    | (injection h with h; subst h
+       have hs := lstat_some _ _ _ _ ‹lstat fs src = some _›
+       refine DirMono.trans (remove_dirMono fs _ (by
+         rw [hs]; intro hc; injection hc with hc; exact ‹_ = Node.dir → False› hc))
+         (insert_dirMono _ _ _ (fun hd => ?_))
+       first
+         | (simp [Restore.Full.remove, resolve_missing _ _ _ _ _ ‹_›] at hd; done)
+         | (simp only [Restore.Full.remove] at hd; split at hd
+            · cases hd
+            · exact absurd hd (by assumption)))
+
+theorem ensureParents_dirMono (dst : LPath ν) (files : List (LPath ν)) (fs fs' : FS ν)
+    (h : ensureParents fs dst files = some fs') : DirMono fs fs' := by
+  induction files generalizing fs with
+  | nil => simp [ensureParents] at h; subst h; exact DirMono.refl _
+  | cons f r ih =>
+    unfold ensureParents at h
+    dsimp only at h
+    split at h
+    · exact ih fs h
+    · split at h
+      · next fs1 hc => exact DirMono.trans (createDirAll_dirMono _ _ _ _ hc) (ih fs1 h)
+      · cases h
+
+theorem ensureParentsPartial_dirMono (dst : LPath ν) (files : List (LPath ν)) (fs : FS ν) :
+    DirMono fs (ensureParentsPartial fs dst files) := by
+  induction files generalizing fs with
+  | nil => exact DirMono.refl _
+  | cons f r ih =>
+    unfold ensureParentsPartial
+    dsimp only
+    split
+    · exact ih fs
+    · split
+      · next fs1 hc => exact DirMono.trans (createDirAll_dirMono _ _ _ _ hc) (ih fs1)
+      · exact DirMono.refl _
+
+theorem moveFiles_dirMono (tmp dst : LPath ν) (files : List (LPath ν)) (fs : FS ν) :
+    DirMono fs (moveFiles tmp dst fs files).1 := by
+  induction files generalizing fs with
+  | nil => exact DirMono.refl _
+  | cons f r ih =>
+    unfold moveFiles
+    split
+    · next fs1 hr => exact DirMono.trans (rename_dirMono _ _ _ _ hr) (ih fs1)
+    · exact DirMono.refl _
+
+/-- the part of `ancillaryTask` between the unpacking and the removal of the temporary directory -/
+def ancBody (fixed : Bool) (C : Cfg ν) (I : Input ν) (fs1 : FS ν) (ok1 : Bool) : FS ν × Bool :=
+  if !ok1 then (fs1, false)
+  else match verifyAncillary fixed C I fs1 [.nm C.db, .nm C.tmp] with
+    | none => (fs1, false)
+    | some files =>
+      match ensureParents fs1 [.nm C.db] files with
+      | none => (ensureParentsPartial fs1 [.nm C.db] files, false)
+      | some fs' => moveFiles [.nm C.db, .nm C.tmp] [.nm C.db] fs' files
+
+theorem ancillaryTask_eq (fixed : Bool) (C : Cfg ν) (I : Input ν) (fs fs0 : FS ν)
+    (h0 : mkdir fs [.nm C.db, .nm C.tmp] = some fs0) :
+    ancillaryTask fixed C I fs =
+      ((removeDirAll (ancBody fixed C I (unpackFirst [.nm C.db, .nm C.tmp] fs0 I.ancillary).1
+            (unpackFirst [.nm C.db, .nm C.tmp] fs0 I.ancillary).2).1 [.nm C.db, .nm C.tmp]).getD
+          (ancBody fixed C I (unpackFirst [.nm C.db, .nm C.tmp] fs0 I.ancillary).1
+            (unpackFirst [.nm C.db, .nm C.tmp] fs0 I.ancillary).2).1,
+       (ancBody fixed C I (unpackFirst [.nm C.db, .nm C.tmp] fs0 I.ancillary).1
+            (unpackFirst [.nm C.db, .nm C.tmp] fs0 I.ancillary).2).2) := by
+  simp only [ancillaryTask, h0, ancBody]
+  rfl
+
+theorem ancBody_dirMono (fixed : Bool) (C : Cfg ν) (I : Input ν) (fs1 : FS ν) (ok1 : Bool) :
+    DirMono fs1 (ancBody fixed C I fs1 ok1).1 := by
+  unfold ancBody
+  repeat' split
+  all_goals first
+    | exact DirMono.refl _
+    | exact ensureParentsPartial_dirMono _ _ _
+    | exact DirMono.trans (ensureParents_dirMono _ _ _ _ ‹_›) (moveFiles_dirMono _ _ _ _)
+
+theorem mkdir_two (fs fs0 : FS ν) (a b : ν) (h0 : fs [] = some .dir) (ha : fs [a] = some .dir)
+    (h : mkdir fs [.nm a, .nm b] = some fs0) :
+    fs0 [] = some .dir ∧ fs0 [a] = some .dir ∧ fs0 [a, b] = some .dir := by
+  have m := mkdir_dirMono _ _ _ h
+  refine ⟨m _ h0, m _ ha, ?_⟩
+  unfold mkdir at h
+  rw [resolve_two fs a b h0 ha] at h
+  cases hb : fs [a, b] with
+  | none => simp [hb] at h; subst h; simp [Restore.Full.insert]
+  | some n => simp [hb] at h
+
+theorem removeDirAll_two (fs : FS ν) (a b : ν) (h0 : fs [] = some .dir) (ha : fs [a] = some .dir)
+    (hb : fs [a, b] = some .dir) : removeDirAll fs [.nm a, .nm b] = some (removeTree fs [a, b]) := by
+  have : lstat fs [.nm a, .nm b] = some ([a, b], .dir) := by
+    unfold lstat; rw [resolve_two fs a b h0 ha]; simp [hb]
+  simp [removeDirAll, this]
+
+/-- **REPAIR of the `getD` gap.** In the canonical layout (the root and `db` are directories) the final
+`remove_dir_all` of `ancillaryTask` SUCCEEDS whatever the archive contains and whatever happened
+before (unpacking failed or not, verification failed or not, moves failed or not): the task's final
+state is the state before the removal with the whole temporary tree deleted -/
+theorem ancillaryTask_tmp_gone (fixed : Bool) (C : Cfg ν) (I : Input ν) (fs fs0 : FS ν)
+    (hroot : fs [] = some .dir) (hdb : fs [C.db] = some .dir)
+    (h0 : mkdir fs [.nm C.db, .nm C.tmp] = some fs0) :
+    (ancillaryTask fixed C I fs).1 =
+      removeTree (ancBody fixed C I (unpackFirst [.nm C.db, .nm C.tmp] fs0 I.ancillary).1
+        (unpackFirst [.nm C.db, .nm C.tmp] fs0 I.ancillary).2).1 [C.db, C.tmp] := by
+  obtain ⟨a0, a1, a2⟩ := mkdir_two fs fs0 C.db C.tmp hroot hdb h0
+  have m : DirMono fs0 (ancBody fixed C I (unpackFirst [.nm C.db, .nm C.tmp] fs0 I.ancillary).1
+      (unpackFirst [.nm C.db, .nm C.tmp] fs0 I.ancillary).2).1 :=
+    DirMono.trans (unpackFirst_dirMono _ _ _) (ancBody_dirMono _ _ _ _ _)
+  rw [ancillaryTask_eq fixed C I fs fs0 h0]
+  simp only [removeDirAll_two _ C.db C.tmp (m _ a0) (m _ a1) (m _ a2), Option.getD_some]
+
+theorem ancillaryTask_tmp_gone_pointwise (fixed : Bool) (C : Cfg ν) (I : Input ν) (fs fs0 : FS ν)
+    (hroot : fs [] = some .dir) (hdb : fs [C.db] = some .dir)
+    (h0 : mkdir fs [.nm C.db, .nm C.tmp] = some fs0) :
+    ∀ r, [C.db, C.tmp].isPrefixOf r = true → (ancillaryTask fixed C I fs).1 r = none := by
+  intro r hr
+  rw [ancillaryTask_tmp_gone fixed C I fs fs0 hroot hdb h0]
+  simp [removeTree, hr]
+
+/-- **REPAIRED failure statement**: (i) also covers the failure of the unpacking (in which case
+`verifyAncillary` is not even called — the property theorem requires it to fail on the partial state);
+(ii) no `getD`: the temporary tree IS gone and everything else is the unpacked state -/
+theorem ancillaryTask_failure_clean (C : Cfg ν) (I : Input ν) (fs fs0 : FS ν)
+    (hroot : fs [] = some .dir) (hdb : fs [C.db] = some .dir)
+    (h0 : mkdir fs [.nm C.db, .nm C.tmp] = some fs0)
+    (hfail : (unpackFirst [.nm C.db, .nm C.tmp] fs0 I.ancillary).2 = false ∨
+      verifyAncillary true C I (unpackFirst [.nm C.db, .nm C.tmp] fs0 I.ancillary).1 [.nm C.db, .nm C.tmp] = none) :
+    (ancillaryTask true C I fs).2 = false ∧
+    (∀ r, [C.db, C.tmp].isPrefixOf r = true → (ancillaryTask true C I fs).1 r = none) ∧
+    (∀ r, [C.db, C.tmp].isPrefixOf r = false →
+      (ancillaryTask true C I fs).1 r = (unpackFirst [.nm C.db, .nm C.tmp] fs0 I.ancillary).1 r) := by
+  have hb : ancBody true C I (unpackFirst [.nm C.db, .nm C.tmp] fs0 I.ancillary).1
+      (unpackFirst [.nm C.db, .nm C.tmp] fs0 I.ancillary).2 =
+      ((unpackFirst [.nm C.db, .nm C.tmp] fs0 I.ancillary).1, false) := by
+    unfold ancBody
+    rcases hfail with h | h
+    · simp [h]
+    · cases hok : (unpackFirst [.nm C.db, .nm C.tmp] fs0 I.ancillary).2 <;> simp [h]
+  refine ⟨?_, ?_, ?_⟩
+  · rw [ancillaryTask_eq true C I fs fs0 h0, hb]
+  · exact ancillaryTask_tmp_gone_pointwise true C I fs fs0 hroot hdb h0
+  · intro r hr
+    rw [ancillaryTask_tmp_gone true C I fs fs0 hroot hdb h0, hb]
+    simp [removeTree, hr]
+
+end removal
+
+/-! non-vacuity of the repaired statements -/
+
+/-- right disjunct (verification fails): the bad-signature run -/
+example : (ancillaryTask true cfg badSigInput fsImmB).2 = false ∧
+    (∀ r, [cfg.db, cfg.tmp].isPrefixOf r = true → (ancillaryTask true cfg badSigInput fsImmB).1 r = none) ∧
+    (∀ r, [cfg.db, cfg.tmp].isPrefixOf r = false → (ancillaryTask true cfg badSigInput fsImmB).1 r = fsUB r) :=
+  ancillaryTask_failure_clean cfg badSigInput fsImmB fs0B (by decide) (by decide) failure_h0 (.inr failure_hv)
+
+/-- left disjunct (the stream of the archive breaks after its last entry): everything was unpacked, the
+manifest is genuine and `verifyAncillary` WOULD accept the partial state — so the hypothesis `hv` of
+`C19_ancillary_failure_clean` is false and that theorem says nothing here; the repaired one applies -/
+def brokenInput : Input Nat :=
+  { honestInput with
+    ancillary := [{ present := true, intact := false, entries := [ent [6] (.file 500), ent [2, 9] (.file 42)] }] }
+
+def fsUK : FS Nat := (unpackFirst [.nm cfg.db, .nm cfg.tmp] fs0 brokenInput.ancillary).1
+
+theorem broken_not_covered :
+    (unpackFirst [.nm cfg.db, .nm cfg.tmp] fs0 brokenInput.ancillary).2 = false ∧
+    verifyAncillary true cfg brokenInput fsUK [.nm cfg.db, .nm cfg.tmp] = some [lp [2, 9]] := by decide
+
+example : (ancillaryTask true cfg brokenInput fsImm).2 = false ∧
+    (∀ r, [cfg.db, cfg.tmp].isPrefixOf r = true → (ancillaryTask true cfg brokenInput fsImm).1 r = none) ∧
+    (∀ r, [cfg.db, cfg.tmp].isPrefixOf r = false → (ancillaryTask true cfg brokenInput fsImm).1 r = fsUK r) :=
+  ancillaryTask_failure_clean cfg brokenInput fsImm fs0 (by decide) (by decide) (eqSomeGet _ _) (.inl broken_not_covered.1)
+
+example : fsUK [0, 7, 2, 9] = some (.file 42) ∧
+    (run true cfg brokenInput emptyDb).2 = false ∧ (run true cfg brokenInput emptyDb).1 [0, 2, 9] = none ∧
+    (run true cfg brokenInput emptyDb).1 [0, 7] = none := by decide
+
+/-- success branch of `ancillaryTask_tmp_gone`: the honest run -/
+example : ∀ r, [cfg.db, cfg.tmp].isPrefixOf r = true → (ancillaryTask true cfg honestInput fsImm).1 r = none :=
+  ancillaryTask_tmp_gone_pointwise true cfg honestInput fsImm fs0 (by decide) (by decide) (eqSomeGet _ _)
+
+example : (ancillaryTask true cfg honestInput fsImm).2 = true ∧
+    (ancillaryTask true cfg honestInput fsImm).1 [0, 2, 9] = some (.file 42) := by decide
+
 end Vacuity.C19
